@@ -1,6 +1,6 @@
 (* C04 - Unmarshal is total and memory-safe on arbitrary bytes. *)
 From Coq Require Import List ZArith Bool.
-From Pico Require Import Base.Res Base.Mach Wire.Wire Schema.Types Schema.Scalar Dec.Dec Dec.SafetyProofs.
+From Pico Require Import Base.Res Base.Mach Wire.Wire Schema.Types Schema.Scalar Dec.Dec Dec.SafetyProofs Dec.LoopEquiv Dec.LoopInst.
 Import ListNotations.
 Open Scope Z_scope.
 
@@ -12,6 +12,21 @@ Proof. exact consume_varint_bounds. Qed.
 (* the length-delimited reader never hands out a slice that extends beyond the input *)
 Theorem C04_bytes_in_bounds : forall b, let '(p, n) := consume_bytes b in n < 0 \/ n <= Z.of_nat (length b).
 Proof. exact consume_bytes_bounds. Qed.
+
+(* "never loops without progress": every cursor move (nextField after a value, and the skip of an
+   unconsumed field in Loop) strictly shortens the remaining input or invalidates the pending
+   field, which ends the loop - for EVERY state and advance, valid or not *)
+Theorem C04_cursor_progress : forall a st,
+  (blen (next_field a st) < blen st)%nat \/ (pfv (next_field a st) = false /\ (blen (next_field a st) <= blen st)%nat).
+Proof. exact next_field_progress. Qed.
+Theorem C04_skip_progress : forall st, pfv st = true -> (blen (skip st) < blen st)%nat \/ pfv (skip st) = false.
+Proof. exact skip_progress. Qed.
+(* a single typed reader that matches consumes input or fails - so a pass that matched never
+   leaves the buffer length unchanged with a valid pending field (Loop's progress test is sound) *)
+Theorem C04_reader_progress : forall k num slot st fs, rmatch _ _ (scalar_reader k num slot) st = true ->
+  let '(st', _) := rrun _ _ (scalar_reader k num slot) st fs in
+  (blen st' < blen st)%nat \/ (pfv st' = false /\ (blen st' <= blen st)%nat).
+Proof. exact scalar_reader_progress. Qed.
 
 (* PARTIAL. Termination: every loop of the decoder model is structurally recursive on a fuel
    argument that the entry point sets to (input length + 2); that this fuel is never exhausted
@@ -26,3 +41,5 @@ Proof. split; vm_compute; reflexivity. Qed.
 
 Print Assumptions C04_varint_in_bounds.
 Print Assumptions C04_bytes_in_bounds.
+Print Assumptions C04_cursor_progress.
+Print Assumptions C04_skip_progress.
